@@ -168,7 +168,7 @@ class FlavouredHierarchy:
 
         self.flavour = flavour
         ns = {"__module__": "vtgen"}
-        K0 = type("K0", (), dict(ns, pm=lambda self: 1) if flavour in ("proto", "both") else dict(ns))
+        K0 = type("K0", (), dict(ns, pm=lambda self: 1) if flavour in ("proto", "both", "twins") else dict(ns))
         K1 = type("K1", (K0,), dict(ns))
         K2 = type("K2", (), dict(ns))
         classes = {"K0": K0, "K1": K1, "K2": K2}
@@ -176,16 +176,19 @@ class FlavouredHierarchy:
             A = _abc.ABCMeta("A", (), dict(ns))
             A.register(K2)
             classes["A"] = A
-        if flavour in ("proto", "both"):
+        if flavour in ("proto", "both", "twins"):
             P = typing.runtime_checkable(type("P", (typing.Protocol,), dict(ns, pm=lambda self: 1)))
             classes["P"] = P
+        if flavour == "twins":
+            # a structural twin: two distinct classes that are subclasses of each other (methods on them always tie)
+            classes["P2"] = typing.runtime_checkable(type("P2", (typing.Protocol,), dict(ns, pm=lambda self: 1)))
         if flavour == "both":
             classes["K3"] = type("K3", (K1, K2), dict(ns))
         self.names = [k for k in classes]
         self.classes = dict(classes, O=object)
-        self.instances = {nm: (object() if nm == "O" else c()) for nm, c in self.classes.items() if nm not in ("A", "P")}
+        self.instances = {nm: (object() if nm == "O" else c()) for nm, c in self.classes.items() if nm not in ("A", "P", "P2")}
         self.type_names = ["O"] + self.names
-        self.value_names = [n for n in self.type_names if n not in ("A", "P")]
+        self.value_names = [n for n in self.type_names if n not in ("A", "P", "P2")]
         self.n = len(self.names)
 
     @classmethod
